@@ -39,7 +39,9 @@ def c20_queries(scratch, tier, seed, logdir):
     dp = os.path.join(logdir, "dump.mir")
     open(dp, "w").write(dump)
     to = 600000 if tier == "thorough" else 120000
-    p = subprocess.run([PY, "-m", "e2.clmul_json", dp, str(to)], cwd=VERIF, text=True, capture_output=True, timeout=3600)
+    args = [PY, "-m", "e2.clmul_json", dp, str(to)]
+    args.append(logdir)  # export every query and ask a second solver (z3-new 5.x; cvc5 for the Boolean ones)
+    p = subprocess.run(args, cwd=VERIF, text=True, capture_output=True, timeout=7200)
     if p.returncode != 0:
         raise RuntimeError("e2.clmul failed: " + p.stderr[-1500:])
     results = json.loads(p.stdout)
